@@ -42,6 +42,12 @@ def run(ses, rep):
     flagged = c08.analyses(ses, rep) + context_keeps_range(ses, rep)
     rep.samples.append({"flagged": [(f[0], f[1]) for f in flagged][:5]})
     c08.confirm(rep, flagged, c08.RANGE_BATTERY, "C09", ("range", "both", "ignored-in-range"))
+    c08.sort_requires_kernels(rep, ses, ("guard",), lambda n: "range" in n)
+
+
+def fallback(rep):
+    c08.fallback_with(rep, c08.RANGE_BATTERY)
+    c08.sort_requires_fallback(rep, lambda n: "range" in n)
 
 
 replay = c08.replay
